@@ -50,7 +50,7 @@ func (e *Engine) treeChecks(id string) []fdResult {
 	for _, o := range list {
 		os.Setenv("GOVC_ORACLE", o.oracle)
 		out := runPkgReplayFiles(e, "core", map[string]string{"zz_govc_tree_test.go": replayTreeSrc}, "TestGovcTreeOracle", "tree oracle "+o.oracle+" on the real builder (package core):")
-		res = append(res, fdResult{Name: o.name, Props: []string{id}, Goal: "BOUNDED (4 built-in documents and the accepted documents of /repo/testdata without INCLUDE/MACRO, directive boundaries from the scanned tree): " + o.goal + " (bounded sample, not a proof)",
+		res = append(res, fdResult{Name: o.name, Props: []string{id}, Goal: "BOUNDED (5 built-in documents and the accepted documents of /repo/testdata without INCLUDE/MACRO, directive boundaries from the scanned tree): " + o.goal + " (bounded sample, not a proof)",
 			OK: strings.Contains(out, "DONE tried=") && !strings.Contains(out, "REPRODUCED input"), Detail: out})
 	}
 	return res
